@@ -24,10 +24,12 @@ Fixpoint map2 {A B C} (f : A -> B -> C) (a : list A) (b : list B) : list C :=
 Fixpoint map3 {A B C D} (f : A -> B -> C -> D) (a : list A) (b : list B) (c : list C) : list D :=
   match a, b, c with x :: a', y :: b', z :: c' => f x y z :: map3 f a' b' c' | _, _, _ => [] end.
 Fixpoint iter_n {A} (n : nat) (f : A -> A) (a : A) : A := match n with O => a | S k => iter_n k f (f a) end.
+Fixpoint mapi_from {A B} (k : nat) (f : nat -> A -> B) (l : list A) : list B :=
+  match l with [] => [] | x :: r => f k x :: mapi_from (S k) f r end.
 Definition map_first {A} (f : A -> A) (l : list A) : list A := match l with [] => [] | x :: r => f x :: r end.
 
 (* `for it in range(n): s = body(it, s); if stop: [fin_break]; break;  [fin_cont]`   (stop is an oracle) *)
-Fixpoint outer_loop {S} (n it : nat) (body : nat -> S -> S) (stop : nat -> S -> bool) (fin_break fin_cont : S -> S) (s : S) : S :=
+Fixpoint outer_loop {St} (n it : nat) (body : nat -> St -> St) (stop : nat -> St -> bool) (fin_break fin_cont : St -> St) (s : St) : St :=
   match n with
   | O => s
   | S n' => let s1 := body it s in
@@ -273,15 +275,19 @@ Definition constrained_parafac (nn : list nat) (other : nat -> mat -> mat)
              stop (fun st => st) (fun st => st) init.
 (* initialize_constrained_parafac ('svd'/'random'): the prox of every raw factor *)
 Definition initialize_ccp (nn : list nat) (other : nat -> mat -> mat) (raw : list mat) : list mat :=
-  map (fun kf => prox_nn (memb (fst kf) nn) (other (fst kf)) (snd kf)) (combine (seq 0 (length raw)) raw).
+  mapi_from 0 (fun k M => prox_nn (memb k nn) (other k) M) raw.
 
 (* ---------------------------------------------------------------- parafac2(nn_modes=...) *)
 (* line_step: factors_ls = last + (cur - last)*jump, clipped at 0 on modes 0 and 2 when declared (NOT on mode 1) *)
-Definition line_step (nn : list nat) (jump : F) (last cur : list mat) : list mat :=
-  map (fun kf => let '(k, (L, C)) := kf in
-                 let E := map2 (map2 (fun l c => l [+] ((c [-] l) [*] jump))) L C in
-                 if (Nat.eqb k 0 || Nat.eqb k 2) && memb k nn then mmap (clip_min zero) E else E)
-      (combine (seq 0 (length cur)) (combine last cur)).
+Definition line_entry (nn : list nat) (jump : F) (k : nat) (L C : mat) : mat :=
+  let E := map2 (map2 (fun l c => l [+] ((c [-] l) [*] jump))) L C in
+  if (Nat.eqb k 0 || Nat.eqb k 2) && memb k nn then mmap (clip_min zero) E else E.
+Fixpoint line_step_from (k : nat) (nn : list nat) (jump : F) (last cur : list mat) : list mat :=
+  match last, cur with
+  | L :: last', C :: cur' => line_entry nn jump k L C :: line_step_from (S k) nn jump last' cur'
+  | _, _ => []
+  end.
+Definition line_step := line_step_from 0.
 (* one outer iteration: weights into factor 1, HALS CP on the projected tensor (n_iter_parafac sweeps, user init
    -> no abs), optional line search (jump and acceptance are oracles), optional cp_normalize *)
 Definition parafac2_iter (utm utu : nat -> nat -> cp_state -> nat -> mat) (solve : mat -> mat -> mat)
